@@ -156,8 +156,30 @@ def run_case(ctx, case, path):
     spec, lims, inverse = case["obj"], case["box"], case["inverse"]
     failures, lines, expects = [], [], []
     with Workspace.create(path) as ws:
-        obj = build(ws, spec)
-        locs = locations(obj, spec)
+        edit = case.get("edit")
+        if edit:
+            # built with other attributes, centres computed (and cached), then edited through the public setters to `spec`;
+            # the reference coordinates are those of an object built from `spec` directly
+            obj = build(ws, edit["first"])
+            _ = obj.centroids
+            a = edit["attr"]
+            if a == "vertical":
+                obj.vertical = True
+            elif a == "origin":
+                obj.origin = spec["origin"]
+            elif a == "du":
+                obj.u_cell_size = spec["du"]
+            elif a == "nu":
+                obj.u_count = spec["nu"]
+            elif a == "u":
+                obj.u_cell_delimiters = np.array(spec["u"])
+            else:
+                setattr(obj, a, spec[a])
+            ctx.count("edited-after-centres-cached:" + a)
+            locs = locations(build(ws, spec), spec)
+        else:
+            obj = build(ws, spec)
+            locs = locations(obj, spec)
         n = len(locs)
         obj.add_data({"d": {"values": np.arange(n, dtype=float) + 0.5,
                             "association": "VERTEX" if spec["kind"] in ("Points", "Curve", "Surface", "Drillhole") and spec["kind"] != "Drillhole" else "CELL"}}) if spec["kind"] != "Drillhole" else None
@@ -324,17 +346,68 @@ def gen_case(ctx, rng, path):
     """Needs the implementation's coordinates to draw touching boxes: build once to read them."""
     from geoh5py.workspace import Workspace
     spec = gen_object(rng)
+    edit = None
+    if spec["kind"] in ("Grid2D", "BlockModel") and rng.random() < 0.4:
+        # the object is edited after its cell centres were computed once: the selection must follow the edited object
+        spec = dict(spec)
+        first = dict(spec)
+        if spec["kind"] == "Grid2D":
+            attr = rng.choice(["rotation", "dip", "vertical", "origin", "du", "nu"])
+        else:
+            attr = rng.choice(["rotation", "origin", "u"])
+        if attr == "rotation":
+            first["rotation"] = rng.choice([0.0, 15.0, 60.0])
+        elif attr == "dip":
+            first["dip"] = rng.choice([0.0, 45.0, 60.0])
+        elif attr == "vertical":
+            first["dip"], spec["dip"] = rng.choice([0.0, 30.0]), 90.0
+        elif attr == "origin":
+            first["origin"] = [x + 1.25 for x in spec["origin"]]
+        elif attr == "du":
+            first["du"] = spec["du"] * 2
+        elif attr == "nu":
+            first["nu"] = spec["nu"] + 1
+        elif attr == "u":
+            first["u"] = [x * 2 for x in spec["u"]]
+        edit = {"attr": attr, "first": first}
     with Workspace.create(path) as ws:
         obj = build(ws, spec)
         locs = np.array(locations(obj, spec), dtype=float)
     os.remove(path)
-    return {"obj": spec, "box": gen_box(rng, locs), "inverse": rng.random() < 0.3}
+    case = {"obj": spec, "box": gen_box(rng, locs), "inverse": rng.random() < 0.3}
+    if edit is not None:
+        case["edit"] = edit
+    return case
+
+
+def directed_edit_cases(path):
+    """One case per geometric setter of the grid classes: the object is built with another value, its centres are read, the
+    setter is called, and the box is the bounding box of the centres of the edited object (every cell qualifies)."""
+    from geoh5py.workspace import Workspace
+    g = {"kind": "Grid2D", "origin": [0.5, -1.0, 2.0], "nu": 3, "nv": 2, "du": 1.0, "dv": 0.5, "rotation": 30.0, "dip": 0.0}
+    b = {"kind": "BlockModel", "origin": [0.5, -1.0, 2.0], "u": [0.0, 1.0, 2.5], "v": [0.0, 0.5], "z": [0.0, 1.0, 1.5], "rotation": 0.0}
+    edits = [(g, "rotation", {"rotation": 75.0}), (g, "dip", {"dip": 60.0}), (g, "vertical", {"dip": 30.0}), (g, "origin", {"origin": [3.0, 3.0, 3.0]}),
+             (g, "du", {"du": 4.0}), (g, "nu", {"nu": 5}), (b, "rotation", {"rotation": 45.0}), (b, "origin", {"origin": [3.0, 3.0, 3.0]}),
+             (b, "u", {"u": [0.0, 4.0, 9.0]})]
+    out = []
+    for spec, attr, other in edits:
+        spec = dict(spec)
+        if attr == "vertical":
+            spec["dip"] = 90.0
+        first = dict(spec, **other)
+        with Workspace.create(path) as ws:
+            locs = np.array(locations(build(ws, spec), spec), dtype=float)
+        os.remove(path)
+        box = [[float(locs[:, a].min()), float(locs[:, a].max())] for a in range(3)]
+        out.append({"obj": spec, "box": box, "inverse": False, "edit": {"attr": attr, "first": first}})
+    return out
 
 
 def run(ctx: Ctx):
     import warnings
     warnings.filterwarnings("ignore")
-    cases = [gen_case(ctx, ctx.rng, ctx.scratch / "gen.geoh5") for _ in range(ctx.n(200, 6000))]
+    cases = directed_edit_cases(ctx.scratch / "gen.geoh5")
+    cases += [gen_case(ctx, ctx.rng, ctx.scratch / "gen.geoh5") for _ in range(ctx.n(200, 6000))]
     process(ctx, cases)
 
 
